@@ -60,6 +60,7 @@ class CohGen:
             class_enum_default=(target == 'matlab'),    # D40 (pybind): default value of the class's own enum type
             typedefs=True,
             serialize_p=0.0,            # probability that a class declares the serialize() marker
+            twin_signatures=0.2,        # probability that a callable reuses the parameter list of an earlier one
             member_template_p=0.2,      # methods (and, where the target allows, static methods / free functions) with
                                         # their own template parameter and instantiation list
             ref_returns=True,           # class objects returned by reference / const reference
@@ -75,6 +76,7 @@ class CohGen:
         self.cur_ns = ()
         self.cur_class = None
         self.cur_templated = False
+        self._sigs = []       # parameter lists (type, name) of scalar-only callables generated so far
 
     # ------------------------------------------------------------ names
     def name(self, base):
@@ -266,6 +268,19 @@ class CohGen:
 
     def args(self, maxn=None, tparams=()):
         r = self.r
+        if self._sigs and self.f['defaults'] and r.random() < self.f['twin_signatures']:
+            # the parameter list (types and names) of an earlier callable, with defaults drawn afresh: two callables
+            # that differ in nothing but their default values
+            base = r.choice(self._sigs)
+            if maxn is None or len(base) <= maxn:
+                out = [[t, nm, None] for t, nm in base]
+                k = r.randint(1, len(out))
+                for a in reversed(out[-k:]):
+                    d = self.default_for(a[0])
+                    if d is None:
+                        break
+                    a[2] = d
+                return tuple(S.Arg(t, nm, d) for t, nm, d in out)
         n = r.randint(0, maxn if maxn is not None else self.k.params)
         out = []
         for i in range(n):
@@ -286,6 +301,9 @@ class CohGen:
                 if d is None:
                     break
                 a[2] = d
+        if out and not tparams and all(not t.ns and not t.args and t.name in SCALARS + ['string'] and not t.marker
+                                       for t, _, _ in out):
+            self._sigs.append([(t, nm) for t, nm, _ in out])
         return tuple(S.Arg(t, nm, d) for t, nm, d in out)
 
     # ------------------------------------------------------------ declarations
